@@ -99,6 +99,8 @@ pub struct CaseSink {
     pub samples: Vec<String>,
     /// human-readable replay text per case index (kept only for small runs / on demand)
     pub index: Vec<(usize, usize)>,
+    /// definitions written at the top of every shard, before the cases
+    pub prelude: String,
 }
 
 impl CaseSink {
@@ -127,6 +129,7 @@ impl CaseSink {
             dist: BTreeMap::new(),
             samples: Vec::new(),
             index: Vec::new(),
+            prelude: String::new(),
         }
     }
     pub fn count(&mut self, key: &str) {
@@ -167,6 +170,9 @@ impl CaseSink {
         let mut f = std::io::BufWriter::new(std::fs::File::create(&path).unwrap());
         writeln!(f, "From Amq Require Import Lib.Base Check.{}.", self.check_mod).unwrap();
         writeln!(f, "Open Scope N_scope.").unwrap();
+        if !self.prelude.is_empty() {
+            writeln!(f, "{}", self.prelude).unwrap();
+        }
         writeln!(f, "Definition cases : list case := [").unwrap();
         for (i, c) in self.cur.iter().enumerate() {
             if i > 0 {
